@@ -11,7 +11,7 @@ From Coq Require Import Init.Byte.
 From FFS Require Import Base.Res Base.Bytes EthTypes.Model EthTypes.Spec EthTypes.SpecBig EthTypes.Proofs EthTypes.ProofsInt EthTypes.ProofsNum
   EthTypes.ProofsHex EthTypes.ProofsLimit EthTypes.ProofsBig EthTypes.ProofsBigInt EthTypes.ProofsBigCoh
   EthTypes.ProofsBigFloat EthTypes.ProofsBigAll.
-From FFS Require Import Base.Lit Base.Keccak EthTypes.ModelMarshal EthTypes.ProofsReferee.
+From FFS Require Import Base.Lit Base.Keccak EthTypes.ModelMarshal EthTypes.ProofsReferee EthTypes.ProofsWave6.
 Import ListNotations.
 
 (* ---- 1. print form: "0x" + lower-case hex digits without leading zeros, value n (all n) ---- *)
@@ -544,3 +544,124 @@ Example C19_nonvacuous_marshal :
   HexInteger_MarshalJSON (-1) = quote (ascii_bytes "0x-1"%string) /\
   (exists err, HexInteger_UnmarshalJSON simple_lexer (HexInteger_MarshalJSON (-1)) = Err err).
 Proof. repeat (split; [vm_compute; reflexivity|]). vm_compute. eauto. Qed.
+
+(* ==== Wave 6 (proofs in EthTypes/ProofsWave6.v) ==== *)
+
+(* ---- W6-A. addresses / byte strings, complete verdict without any law on the lexer.  [spelled s b]: s spells b
+   in hex of any case, with or without "0x".  Text entry points: Ok b exactly for the spelled texts (of 20 bytes
+   for an address), everything else is an error.  Through json.Unmarshal, for EVERY lexer and EVERY document: bytes
+   are returned exactly when the lexer returned a string that spells them; the error side names the classes
+   (document refused by the lexer; odd / non-hex string; a spelling of another length than 20).  This supersedes
+   the [lexs_law] + "quoted plain ASCII" restriction of C19_json_layer_rejects: the only hypothesis left is on
+   what the lexer returned. ---- *)
+Theorem C19_text_layer_verdict : forall s : bytes,
+  (forall b, Address_SetString s = Ok b <-> length b = 20%nat /\ spelled s b) /\
+  (forall b, hex_decode (trim0x s) = Ok b <-> spelled s b) /\
+  ((forall b, length b = 20%nat -> ~ spelled s b) -> exists e, Address_SetString s = Err e) /\
+  ((forall b, ~ spelled s b) -> exists e, hex_decode (trim0x s) = Err e).
+Proof. exact text_layer_verdict. Qed.
+Print Assumptions C19_text_layer_verdict.
+
+Theorem C19_spelled_unique : forall s b b' : bytes, spelled s b -> spelled s b' -> b = b'.
+Proof. exact spelled_unique. Qed.
+Print Assumptions C19_spelled_unique.
+
+Theorem C19_json_layer_iff : forall (lexs : bytes -> option bytes) (d : bytes),
+  (forall b, Address_UnmarshalJSON lexs d = Ok b <-> exists s, lexs d = Some s /\ length b = 20%nat /\ spelled s b) /\
+  (forall b, HexBytes_UnmarshalJSON lexs d = Ok b <-> exists s, lexs d = Some s /\ spelled s b).
+Proof. exact json_layer_iff. Qed.
+Print Assumptions C19_json_layer_iff.
+
+Theorem C19_json_layer_rejects_any : forall (lexs : bytes -> option bytes) (d : bytes),
+  (lexs d = None ->
+     (exists e, Address_UnmarshalJSON lexs d = Err e) /\ (exists e, HexBytes_UnmarshalJSON lexs d = Err e)) /\
+  (forall s, lexs d = Some s -> bad_hex (trim0x s) ->
+     (exists e, Address_UnmarshalJSON lexs d = Err e) /\ (exists e, HexBytes_UnmarshalJSON lexs d = Err e)) /\
+  (forall s b, lexs d = Some s -> spelled s b -> length b <> 20%nat -> exists e, Address_UnmarshalJSON lexs d = Err e) /\
+  ((forall s b, lexs d = Some s -> length b = 20%nat -> ~ spelled s b) -> exists e, Address_UnmarshalJSON lexs d = Err e) /\
+  ((forall s b, lexs d = Some s -> ~ spelled s b) -> exists e, HexBytes_UnmarshalJSON lexs d = Err e).
+Proof. exact json_layer_rejects_any. Qed.
+Print Assumptions C19_json_layer_rejects_any.
+
+(* ---- W6-B. the quantifier with the signed / 0X-prefixed hex class.  [spelling_x] = [spelling] (canonical decimal,
+   negative decimal, 0x-hex, JSON number with the library-limit verdict) + [-] 0 (x|X) hexdigits with value
+   (-)n, exponent 0, no library limit.  One exactness theorem (same conclusion as C19_parse_exact_boundary) and one
+   safety theorem for all these classes; C19_parse_exact_boundary / C19_parse_never_wrong are the [sx_quant] case. ---- *)
+Theorem C19_parse_exact_all_classes : forall lex (ty64 : bool) (t : bytes) (m e : Z) (l : bool) (b : bytes),
+  lex_law lex -> spelling_x t m e l -> json_of t b ->
+  (l = true ->
+     (forall q, sci_is m e q -> in_range ty64 q = true -> parse_int ty64 lex b = Ok q) /\
+     ((forall q, sci_is m e q -> in_range ty64 q = false) -> exists err, parse_int ty64 lex b = Err err)) /\
+  (l = false -> exists err, parse_int ty64 lex b = Err err).
+Proof. exact parse_exact_x. Qed.
+Print Assumptions C19_parse_exact_all_classes.
+
+Theorem C19_parse_never_wrong_all_classes : forall lex (ty64 : bool) (t : bytes) (m e : Z) (b : bytes) (q : Z),
+  lex_law lex -> denotes_x t m e -> json_of t b ->
+  parse_int ty64 lex b = Ok q -> sci_is m e q /\ in_range ty64 q = true.
+Proof. exact parse_sound_x. Qed.
+Print Assumptions C19_parse_never_wrong_all_classes.
+
+Theorem C19_denotes_x_is_spelling_x : forall (t : bytes) (m e : Z), denotes_x t m e <-> exists l, spelling_x t m e l.
+Proof. exact denotes_x_spelling_x. Qed.
+Print Assumptions C19_denotes_x_is_spelling_x.
+
+(* ---- W6-C. negative hex without the guard n <> 0: "-0x0.." is 0 and accepted, every other negative hex text is an
+   error, and a returned value can only be that 0. ---- *)
+Theorem C19_negative_hex_verdict : forall lex (ty64 up : bool) (s : bytes) (n : N),
+  lex_law lex -> hex_value s = Some n ->
+  (n = 0%N -> parse_int ty64 lex (quote (hex_text true up s)) = Ok 0%Z) /\
+  (n <> 0%N -> exists err, parse_int ty64 lex (quote (hex_text true up s)) = Err err) /\
+  (forall q, parse_int ty64 lex (quote (hex_text true up s)) = Ok q -> n = 0%N /\ q = 0%Z).
+Proof. exact negative_hex_verdict. Qed.
+Print Assumptions C19_negative_hex_verdict.
+
+(* ---- non-vacuity (wave 6) ---- *)
+(* a lexer that is NOT the plain-string fragment (it decodes some escaped document to the string "0xaB"): the byte
+   string is returned, the address type refuses it (1 byte), a refusing lexer gives errors, "0xag" is bad hex *)
+Example C19_nonvacuous_json_layer_any :
+  let s := ascii_bytes "0xaB"%string in
+  let lexs := fun _ : bytes => Some s in
+  let d := ascii_bytes """\u0030xaB"""%string in
+  spelled s [xab] /\ HexBytes_UnmarshalJSON lexs d = Ok [xab] /\
+  (exists e, Address_UnmarshalJSON lexs d = Err e) /\
+  (exists e, HexBytes_UnmarshalJSON (fun _ => None) d = Err e) /\
+  bad_hex (trim0x (ascii_bytes "0xag"%string)) /\
+  (exists e, HexBytes_UnmarshalJSON (fun _ => Some (ascii_bytes "0xag"%string)) d = Err e).
+Proof.
+  cbv zeta.
+  assert (S : spelled (ascii_bytes "0xaB"%string) [xab]).
+  { right. exists (ascii_bytes "aB"%string). split; [reflexivity|]. vm_compute. repeat split; exists 10%N, 11%N; repeat split. }
+  assert (B : bad_hex (trim0x (ascii_bytes "0xag"%string))).
+  { right. exists x67. split; [vm_compute; tauto|vm_compute; reflexivity]. }
+  split; [exact S|].
+  split; [apply (proj2 (C19_json_layer_iff _ _)); eexists; split; [reflexivity|exact S]|].
+  split; [exact (proj1 (proj2 (proj2 (C19_json_layer_rejects_any _ _))) _ _ eq_refl S ltac:(discriminate))|].
+  split; [exact (proj2 (proj1 (C19_json_layer_rejects_any (fun _ => None) _) eq_refl))|].
+  split; [exact B|].
+  exact (proj2 (proj1 (proj2 (C19_json_layer_rejects_any (fun _ => Some (ascii_bytes "0xag"%string)) _)) _ eq_refl B)).
+Qed.
+
+(* "-0X1F" is in the extended relation with value -31 and is an error for both types by the all-classes theorem;
+   "0X1f" = 31 is accepted; "-0x000" is the accepted zero *)
+Example C19_nonvacuous_all_classes :
+  let t := ascii_bytes "-0X1F"%string in
+  spelling_x t (-31) 0 true /\ json_of t (quote t) /\
+  (forall ty64, exists err, parse_int ty64 simple_lexer (quote t) = Err err) /\
+  spelling_x (ascii_bytes "0X1f"%string) 31 0 true /\
+  parse_int true simple_lexer (quote (ascii_bytes "0X1f"%string)) = Ok 31%Z /\
+  parse_int true simple_lexer (quote (ascii_bytes "-0x000"%string)) = Ok 0%Z.
+Proof.
+  cbv zeta.
+  assert (S : spelling_x (ascii_bytes "-0X1F"%string) (-31) 0 true)
+    by exact (sx_hex true true (ascii_bytes "1F"%string) 31%N eq_refl).
+  assert (J : json_of (ascii_bytes "-0X1F"%string) (quote (ascii_bytes "-0X1F"%string))) by (left; reflexivity).
+  split; [exact S|]. split; [exact J|].
+  split.
+  { intros ty64.
+    apply (proj2 (proj1 (C19_parse_exact_all_classes simple_lexer ty64 _ _ _ _ _ simple_lexer_law S J) eq_refl)).
+    intros q Hq. unfold sci_is in Hq. cbn in Hq. assert (q = (-31)%Z) by lia. subst q. destruct ty64; reflexivity. }
+  split; [exact (sx_hex false true (ascii_bytes "1f"%string) 31%N eq_refl)|].
+  split; [vm_compute; reflexivity|].
+  exact (proj1 (C19_negative_hex_verdict simple_lexer true false (ascii_bytes "000"%string) 0%N simple_lexer_law eq_refl) eq_refl).
+Qed.
